@@ -141,6 +141,12 @@ def scenarios(rng: random.Random, tier: str):
     for extra in ("", " | ans 0 0 2001"):
         during = cfg.replace("NODE ", "NODE during=ans_0_0_2001;", 1)
         out.append(during + " | start | acc | rx 0 " + nodegen.cer("peer1.x", "4", n(), n()) + f" | rx 0 {nodegen.ccr(n(), n(), 'peer1.x')}{extra} | tick")
+    # the node sends a request of its own (watchdog, application request) on the connection, numbered like the peer's
+    # pending request: the two number spaces have nothing to do with each other
+    idle_cfg = cfg.replace("idle=9999", "idle=5;dwa=30")
+    for own in ("adv 6 | rx 0 " + nodegen.dwa(7001, 268435464), "req 0 " + nodegen.ccr(0, 0, "node.local") + " 1"):
+        out.append((idle_cfg if own.startswith("adv") else cfg) + " | start | acc | rx 0 " + nodegen.cer("peer1.x", "4", n(), n()) +
+                   f" | sethbh 0 7000 | rx 0 {nodegen.ccr(7001, n(), 'peer1.x')} | {own} | ans 0 0 2001")
     # identifiers at the edges of their range are the peer's choice: the answer goes out all the same
     pre0 = cfg + " | start | acc | rx 0 " + nodegen.cer("peer1.x", "4", n(), n())
     for hb, ee in ((0, n()), (n(), 0), (0, 0), (4294967295, 4294967295), (1, 1)):
